@@ -109,7 +109,7 @@ def op(p, other, kind, arg):
         if p.patterns[i] is not pat or pat.project is not p or i != len(pats) or p.patterns[:i] != pats:
             return False
     elif kind == 7:
-        foreign = other.patterns[0]
+        foreign = other.patterns[arg // 2 % 2]     # a Pattern or a PatternClone owned by the other project
         try:
             if arg % 2:
                 p.attach_pattern(foreign)
@@ -136,6 +136,7 @@ def hist_ob(mask, prefix, oid):
     other = Project()
     other.new_module(AMP)
     other.attach_pattern(Pattern(lines=1, tracks=1))
+    other.attach_pattern(PatternClone(source=0))
 {pre}
     return op(p, other, kind, arg)
 """
